@@ -1476,3 +1476,170 @@ Proof.
   - destruct Hx as [<-|[<-|[]]]; eexists; (split; [reflexivity|lia]).
   - unfold get in Hx. destruct r; cbn in Hx; destruct Hx.
 Qed.
+
+(* ------------------------------------------------------------------------------------- *)
+(* the executable isomorphism check is sound                                              *)
+(* ------------------------------------------------------------------------------------- *)
+Lemma list_eqb_nat_eq : forall a b, list_eqb Nat.eqb a b = true -> a = b.
+Proof.
+  induction a as [|x s IH]; intros [|y t] H; cbn in H; try discriminate; [reflexivity|].
+  apply andb_true_iff in H. destruct H as [H1 H2]. apply Nat.eqb_eq in H1. rewrite H1, (IH _ H2). reflexivity.
+Qed.
+
+Lemma opt_nat_eqb_eq : forall a b, opt_nat_eqb a b = true -> a = b.
+Proof. intros [x|] [y|] H; cbn in H; try discriminate; [apply Nat.eqb_eq in H; rewrite H|]; reflexivity. Qed.
+
+Lemma zip_prefs_sound : forall (R : nat -> nat -> Prop) xs ys l, zip_prefs xs ys = Some l ->
+  (forall a b, In (a, b) l -> R a b) -> Forall2 (pref_rel R) xs ys.
+Proof.
+  induction xs as [|x s IH]; intros [|y t] l Hz HR; cbn in Hz; try discriminate; [constructor| |].
+  - destruct x; discriminate.
+  - destruct x as [a|u], y as [b|v]; try discriminate.
+    + destruct (zip_prefs s t) as [l2|] eqn:E; [|discriminate]. inversion Hz; subst l.
+      constructor; [cbn; apply HR; left; reflexivity|]. eapply IH; [exact E|]. intros a0 b0 H0. apply HR. right. exact H0.
+    + destruct (Nat.eqb u v) eqn:E; [|discriminate]. apply Nat.eqb_eq in E. constructor; [exact E|]. eapply IH; eassumption.
+Qed.
+
+Lemma ind_match_sound : forall (R : nat -> nat -> Prop) a b more, ind_match a b = Some more ->
+  (forall x y, In (x, y) more -> R x y) -> ind_rel R a b.
+Proof.
+  intros R a b more Hm HR. unfold ind_match in Hm.
+  destruct (Nat.eqb (i_uid a) (i_uid b) && Nat.eqb (i_fit a) (i_fit b) && Nat.eqb (i_graph a) (i_graph b) &&
+            Nat.eqb (i_meta a) (i_meta b) && opt_nat_eqb (i_ng a) (i_ng b)) eqn:E; [|discriminate].
+  repeat (apply andb_true_iff in E; destruct E as [E ?]).
+  apply Nat.eqb_eq in E. apply Nat.eqb_eq in H2. apply Nat.eqb_eq in H1. apply Nat.eqb_eq in H0. apply opt_nat_eqb_eq in H.
+  unfold ind_rel. repeat split; try assumption.
+  destruct (i_op a) as [p|], (i_op b) as [q|]; try discriminate; cbn [pop_rel]; [|exact I].
+  destruct (Nat.eqb (p_type p) (p_type q) && list_eqb Nat.eqb (p_ops p) (p_ops q) && Nat.eqb (p_uid p) (p_uid q)) eqn:E2; [|discriminate].
+  repeat (apply andb_true_iff in E2; destruct E2 as [E2 ?]).
+  apply Nat.eqb_eq in E2. apply list_eqb_nat_eq in H4. apply Nat.eqb_eq in H3.
+  repeat split; try assumption. eapply zip_prefs_sound; eassumption.
+Qed.
+
+Section Walk.
+Variables h h' : list (ind pref).
+
+Definition one_to_one (rel : list (nat * nat)) : Prop :=
+  forall a b a' b', In (a, b) rel -> In (a', b') rel -> (a = a' <-> b = b').
+
+Definition WInv (rel todo : list (nat * nat)) : Prop :=
+  one_to_one rel /\
+  forall a b, In (a, b) rel -> exists more, ind_match (get h a) (get h' b) = Some more /\
+                                            forall q, In q more -> In q rel \/ In q todo.
+
+Lemma pair_eqb_eq : forall p q, pair_eqb p q = true <-> p = q.
+Proof.
+  intros [a b] [c d]. unfold pair_eqb. cbn. rewrite andb_true_iff, !Nat.eqb_eq. split; [intros [-> ->]; reflexivity|intros E; inversion E; split; reflexivity].
+Qed.
+
+Lemma pair_mem_In : forall p l, pair_mem p l = true <-> In p l.
+Proof.
+  intros p l. unfold pair_mem. rewrite existsb_exists. split.
+  - intros [q [Hq He]]. apply pair_eqb_eq in He. subst. exact Hq.
+  - intros Hin. exists p. split; [exact Hin|apply pair_eqb_eq; reflexivity].
+Qed.
+
+Lemma no_clash : forall p rel, pair_clash p rel = false -> ~ In p rel ->
+  forall q, In q rel -> fst p <> fst q /\ snd p <> snd q.
+Proof.
+  intros p rel Hc Hn q Hq. unfold pair_clash in Hc.
+  assert (Hq' : ((Nat.eqb (fst p) (fst q) || Nat.eqb (snd p) (snd q)) && negb (pair_eqb p q)) = false).
+  { destruct ((Nat.eqb (fst p) (fst q) || Nat.eqb (snd p) (snd q)) && negb (pair_eqb p q)) eqn:E; [|reflexivity].
+    assert (existsb (fun q => (Nat.eqb (fst p) (fst q) || Nat.eqb (snd p) (snd q)) && negb (pair_eqb p q)) rel = true); [|congruence].
+    apply existsb_exists. exists q. split; assumption. }
+  assert (Hne : pair_eqb p q = false).
+  { destruct (pair_eqb p q) eqn:E; [|reflexivity]. apply pair_eqb_eq in E. subst. contradiction. }
+  rewrite Hne in Hq'. cbn in Hq'. rewrite andb_true_r in Hq'. apply orb_false_iff in Hq'. destruct Hq' as [H1 H2].
+  apply Nat.eqb_neq in H1. apply Nat.eqb_neq in H2. split; assumption.
+Qed.
+
+Lemma iso_walk_sound : forall fuel todo rel R, iso_walk fuel h h' todo rel = Some R -> WInv rel todo ->
+  WInv R [] /\ incl rel R /\ incl todo R.
+Proof.
+  induction fuel as [|k IH]; intros todo rel R Hw Hinv; cbn [iso_walk] in Hw; [discriminate|].
+  destruct todo as [|p t].
+  - inversion Hw; subst R. split; [exact Hinv|]. split; [apply incl_refl|intros x []].
+  - destruct (pair_mem p rel) eqn:Em.
+    + apply pair_mem_In in Em.
+      destruct (IH t rel R Hw) as [H1 [H2 H3]].
+      { destruct Hinv as [Ho Hm]. split; [exact Ho|]. intros a b Hab. destruct (Hm a b Hab) as [more [Hmm Hq]].
+        exists more. split; [exact Hmm|]. intros q Hq'. destruct (Hq q Hq') as [Hl|[<-|Hr]]; [left; exact Hl|left; exact Em|right; exact Hr]. }
+      split; [exact H1|]. split; [exact H2|]. intros x [<-|Hx]; [apply H2; exact Em|apply H3; exact Hx].
+    + assert (Hn : ~ In p rel) by (intros Hin; apply pair_mem_In in Hin; congruence).
+      destruct (pair_clash p rel) eqn:Ec; [discriminate|].
+      destruct (ind_match (get h (fst p)) (get h' (snd p))) as [more|] eqn:Emt; [|discriminate].
+      destruct (IH (more ++ t) (p :: rel) R Hw) as [H1 [H2 H3]].
+      { destruct Hinv as [Ho Hm]. split.
+        - intros a b a' b' [E1|H1] [E2|H2].
+          + subst p. inversion E2; subst. split; reflexivity.
+          + subst p. destruct (no_clash (a, b) rel Ec Hn (a', b') H2) as [N1 N2]. cbn in N1, N2. split; intros; contradiction.
+          + subst p. destruct (no_clash (a', b') rel Ec Hn (a, b) H1) as [N1 N2]. cbn in N1, N2. split; intros E; symmetry in E; contradiction.
+          + apply Ho; assumption.
+        - intros a b [E1|Hab].
+          + subst p. cbn [fst snd] in Emt. exists more. split; [exact Emt|]. intros q Hq. right. apply in_or_app. left. exact Hq.
+          + destruct (Hm a b Hab) as [more2 [Hmm Hq]]. exists more2. split; [exact Hmm|].
+            intros q Hq'. destruct (Hq q Hq') as [Hl|[<-|Hr]]; [left; right; exact Hl|left; left; reflexivity|right; apply in_or_app; right; exact Hr]. }
+      split; [exact H1|]. split; [intros x Hx; apply H2; right; exact Hx|].
+      intros x [<-|Hx]; [apply H2; left; reflexivity|apply H3; apply in_or_app; right; exact Hx].
+Qed.
+
+End Walk.
+
+Lemma zip_refs_sound : forall (R : nat -> nat -> Prop) xs ys l, zip_refs xs ys = Some l ->
+  (forall a b, In (a, b) l -> R a b) -> Forall2 R xs ys.
+Proof.
+  induction xs as [|x s IH]; intros [|y t] l Hz HR; cbn in Hz; try discriminate; [constructor|].
+  destruct (zip_refs s t) as [l2|] eqn:E; [|discriminate]. inversion Hz; subst l.
+  constructor; [apply HR; left; reflexivity|]. eapply IH; [exact E|]. intros a b H0. apply HR. right. exact H0.
+Qed.
+
+Lemma zip_lists_sound : forall (R : nat -> nat -> Prop) xs ys l, zip_lists xs ys = Some l ->
+  (forall a b, In (a, b) l -> R a b) -> Forall2 (Forall2 R) xs ys.
+Proof.
+  induction xs as [|x s IH]; intros [|y t] l Hz HR; cbn in Hz; try discriminate; [constructor|].
+  destruct (zip_refs x y) as [l1|] eqn:E1; [|discriminate]. destruct (zip_lists s t) as [l2|] eqn:E2; [|discriminate].
+  inversion Hz; subst l. constructor.
+  - eapply zip_refs_sound; [exact E1|]. intros a b H0. apply HR. apply in_or_app. left. exact H0.
+  - eapply IH; [exact E2|]. intros a b H0. apply HR. apply in_or_app. right. exact H0.
+Qed.
+
+Lemma gens_rel_of : forall (R : nat -> nat -> Prop) gs gs', gens_hdr_eqb gs gs' = true ->
+  Forall2 (Forall2 R) (map g_members gs) (map g_members gs') -> Forall2 (gen_rel R) gs gs'.
+Proof.
+  induction gs as [|g s IH]; intros [|g' t] Hh HF; cbn in Hh; try discriminate; [constructor|].
+  cbn [map] in HF. inversion HF; subst.
+  repeat (apply andb_true_iff in Hh; destruct Hh as [Hh ?]).
+  apply Nat.eqb_eq in Hh. apply Nat.eqb_eq in H1. apply Nat.eqb_eq in H0.
+  constructor; [unfold gen_rel; repeat split; assumption|apply IH; assumption].
+Qed.
+
+Lemma obj_eqb_eq : forall a b, obj_eqb a b = true -> a = b.
+Proof.
+  intros [m1 n1] [m2 n2] H. unfold obj_eqb in H. cbn in H. apply andb_true_iff in H. destruct H as [H1 H2].
+  apply eqb_prop in H1. apply list_eqb_nat_eq in H2. subst. reflexivity.
+Qed.
+
+(* what the driver's oracle accepts is an isomorphism in the sense of the theorems *)
+Theorem iso_b_sound : forall H H', iso_b H H' = true -> iso H H'.
+Proof.
+  intros H H' Hb. unfold iso_b in Hb.
+  apply andb_true_iff in Hb. destruct Hb as [Hb Hwalk].
+  apply andb_true_iff in Hb. destruct Hb as [Hb Hhdr].
+  apply andb_true_iff in Hb. destruct Hb as [Hb Hdir].
+  apply andb_true_iff in Hb. destruct Hb as [Hb Htun].
+  destruct (zip_lists (map g_members (h_gens H)) (map g_members (h_gens H'))) as [l1|] eqn:E1; [|discriminate].
+  destruct (zip_lists (h_snaps H) (h_snaps H')) as [l2|] eqn:E2; [|discriminate].
+  destruct (iso_walk _ (h_heap H) (h_heap H') (l1 ++ l2) []) as [R|] eqn:Ew; [|discriminate].
+  destruct (iso_walk_sound _ _ _ _ _ _ Ew) as [[Ho Hm] [_ Hincl]].
+  { split; [intros a b a' b' []|intros a b []]. }
+  exists (fun a b => In (a, b) R). constructor.
+  - apply obj_eqb_eq. exact Hb.
+  - apply Nat.eqb_eq. exact Htun.
+  - apply Nat.eqb_eq. exact Hdir.
+  - apply gens_rel_of; [exact Hhdr|]. eapply zip_lists_sound; [exact E1|]. intros a b Hab. apply Hincl. apply in_or_app. left. exact Hab.
+  - eapply zip_lists_sound; [exact E2|]. intros a b Hab. apply Hincl. apply in_or_app. right. exact Hab.
+  - intros r r' Hr. destruct (Hm r r' Hr) as [more [Hmm Hq]]. eapply ind_match_sound; [exact Hmm|].
+    intros x y Hxy. destruct (Hq (x, y) Hxy) as [Hl|[]]. exact Hl.
+  - intros r r1 r2 H1 H2. apply (Ho r r1 r r2 H1 H2). reflexivity.
+  - intros r1 r2 r' H1 H2. apply (Ho r1 r' r2 r' H1 H2). reflexivity.
+Qed.
